@@ -67,7 +67,9 @@ Definition p_mismatches (cs : list pcase) : list N :=
 Definition p_sig (c : pcase) : N :=
   if p_class c =? 2 then
     (if (p_site c =? SITE_ARP) || (p_site c =? SITE_ETH) then 0%N
-     else if (1 <=? p_site c) && (p_site c <=? 3) then Z.to_N (p_site c) else 90%N)
+     else if (1 <=? p_site c) && (p_site c <=? 3) then Z.to_N (p_site c)
+     else if (p_site c =? 14) || (p_site c =? 15) then Z.to_N (p_site c)   (* icmp.Parse / udp.Unmarshal *)
+     else 90%N)
   else 0%N.
 
 Definition p_violations (cs : list pcase) : list (N * N) :=
@@ -212,7 +214,7 @@ Definition h_sig (c : hcase) : N :=
   if negb (h_fatal c =? 0) then
     (if (1 <=? h_fatal c) && (h_fatal c <=? 6) then Z.to_N (h_fatal c)    (* 6: arp.Unmarshal reached *)
      else if h_fatal c =? 11 then SIG_HANG
-     else if (h_fatal c =? 12) || (h_fatal c =? 13) then Z.to_N (h_fatal c)  (* decoder goroutine / knock detector *)
+     else if (12 <=? h_fatal c) && (h_fatal c <=? 15) then Z.to_N (h_fatal c)  (* decoder goroutine / knock detector / icmp.Parse / udp.Unmarshal *)
      else 90%N)
   else if ev_mem (h_probe c) (h_events c) then 0%N else SIG_PROBE_LOST.
 
